@@ -155,6 +155,9 @@ class Ctx:
         """Assert ``claim`` on this path.  unsat(not claim) -> True.  A counterexample or an
         unknown is recorded as an event; the harness decides what to do with it."""
         claim = _b(claim)
+        info = dict(info or {})
+        if self.extra.get('case') is not None:
+            info.setdefault('case', self.extra['case'])
         r, m = self.solve(z3.Not(claim))
         if r == 'unsat':
             self.stats.proved += 1
